@@ -55,6 +55,7 @@ Section Plan.
   Variable tm : tagmap.
   Variable ic : bool.
   Variable fns : list mfunc.
+  Variables W0s W0d : sset.
 
   (* strategy h may be used to write field w from field r *)
   Definition applicable (to_dir : bool) (r w : field) (h : strategy) : Prop :=
@@ -107,7 +108,7 @@ Section Plan.
 
   (* ---------------------------------------------------------------- ToX *)
   Theorem to_stmts_sound s spaths need :
-    Inv e tm ic fns s ->
+    Inv e tm ic fns W0s W0d s ->
     forall st, In st (to_stmts spaths need s) ->
     exists i j, i < length (s_src s) /\ j < length (s_dst s)
                 /\ st_src st = ref_of (src_at s i) /\ st_dst st = ref_of (dst_at s j)
@@ -120,14 +121,14 @@ Section Plan.
     destruct (f_target sf) as [j|] eqn:T; [|contradiction].
     apply in_map_iff in H. destruct H as (h & <- & Hh). simpl.
     subst sf. unfold src_at, dst_at, rd, NMto in *.
-    destruct (iv_tgt _ _ _ _ _ IT i j Hi T) as (Hj & _ & NM & JJ).
+    destruct (iv_tgt _ _ _ _ _ _ IT i j Hi T) as (Hj & _ & NM & JJ).
     exists i, j. unfold rd, NMto in *.
     split; [exact Hi|]. split; [exact Hj|]. split; [reflexivity|]. split; [reflexivity|].
     split; [exact T|]. split; [exact NM|]. apply strategies_applicable; auto.
   Qed.
 
   Theorem to_stmts_write_once s spaths need :
-    Inv e tm ic fns s -> NoDup (map f_name (s_dst s)) ->
+    Inv e tm ic fns W0s W0d s -> NoDup (map f_name (s_dst s)) ->
     NoDup (map (fun st => r_name (st_dst st)) (to_stmts spaths need s)).
   Proof.
     intros (IT & _) ND. unfold to_stmts.
@@ -135,8 +136,8 @@ Section Plan.
     apply (NoDup_flat_map_nth _ fdummy).
     - intros i Hi. destruct (f_target (nth i (s_src s) fdummy)) as [j|] eqn:T; simpl; [|constructor].
       rewrite map_map. simpl.
-      destruct (iv_tgt _ _ _ _ _ IT i j Hi T) as (Hj & _).
-      pose proof (iv_count _ _ _ _ _ IT j Hj) as C.
+      destruct (iv_tgt _ _ _ _ _ _ IT i j Hi T) as (Hj & _).
+      pose proof (iv_count _ _ _ _ _ _ IT j Hj) as C.
       unfold rd, dst_at in *.
       rewrite <- (strategies_length true (nth j (s_dst s) fdummy) (nth i (s_src s) fdummy)) in C.
       destruct (strategies true (nth j (s_dst s) fdummy) (nth i (s_src s) fdummy)) as [|a [|b l]]; simpl in *; try lia.
@@ -148,15 +149,15 @@ Section Plan.
       rewrite map_map in Y, Y'. simpl in Y, Y'.
       apply in_map_iff in Y. destruct Y as (_ & <- & _).
       apply in_map_iff in Y'. destruct Y' as (_ & E & _).
-      destruct (iv_tgt _ _ _ _ _ IT i j Hi T) as (Hj & _).
-      destruct (iv_tgt _ _ _ _ _ IT i' j' Hi' T') as (Hj' & _).
+      destruct (iv_tgt _ _ _ _ _ _ IT i j Hi T) as (Hj & _).
+      destruct (iv_tgt _ _ _ _ _ _ IT i' j' Hi' T') as (Hj' & _).
       assert (j' = j) by (apply (NoDup_map_nth f_name (s_dst s) fdummy); auto).
-      subst j'. apply (iv_inj _ _ _ _ _ IT i i' j); auto.
+      subst j'. apply (iv_inj _ _ _ _ _ _ IT i i' j); auto.
   Qed.
 
   (* -------------------------------------------------------------- FromX *)
   Theorem from_stmts_sound s dpaths need :
-    Inv e tm ic fns s ->
+    Inv e tm ic fns W0s W0d s ->
     forall st, In st (from_stmts dpaths need s) ->
     exists i j, i < length (s_src s) /\ j < length (s_dst s)
                 /\ st_src st = ref_of (dst_at s j) /\ st_dst st = ref_of (src_at s i)
@@ -169,14 +170,14 @@ Section Plan.
     destruct (f_target df) as [i|] eqn:T; [|contradiction].
     apply in_map_iff in H. destruct H as (h & <- & Hh). simpl.
     subst df. unfold src_at, dst_at, rd, NMfrom in *.
-    destruct (iv_tgt _ _ _ _ _ IF j i Hj T) as (Hi & _ & NM & JJ).
+    destruct (iv_tgt _ _ _ _ _ _ IF j i Hj T) as (Hi & _ & NM & JJ).
     exists i, j. unfold rd, NMfrom in *.
     split; [exact Hi|]. split; [exact Hj|]. split; [reflexivity|]. split; [reflexivity|].
     split; [exact T|]. split; [exact NM|]. apply strategies_applicable; auto.
   Qed.
 
   Theorem from_stmts_write_once s dpaths need :
-    Inv e tm ic fns s -> NoDup (map f_name (s_src s)) ->
+    Inv e tm ic fns W0s W0d s -> NoDup (map f_name (s_src s)) ->
     NoDup (map (fun st => r_name (st_dst st)) (from_stmts dpaths need s)).
   Proof.
     intros (_ & IF) ND. unfold from_stmts.
@@ -184,8 +185,8 @@ Section Plan.
     apply (NoDup_flat_map_nth _ fdummy).
     - intros j Hj. destruct (f_target (nth j (s_dst s) fdummy)) as [i|] eqn:T; simpl; [|constructor].
       rewrite map_map. simpl.
-      destruct (iv_tgt _ _ _ _ _ IF j i Hj T) as (Hi & _).
-      pose proof (iv_count _ _ _ _ _ IF i Hi) as C.
+      destruct (iv_tgt _ _ _ _ _ _ IF j i Hj T) as (Hi & _).
+      pose proof (iv_count _ _ _ _ _ _ IF i Hi) as C.
       unfold rd, src_at in *.
       rewrite <- (strategies_length false (nth i (s_src s) fdummy) (nth j (s_dst s) fdummy)) in C.
       destruct (strategies false (nth i (s_src s) fdummy) (nth j (s_dst s) fdummy)) as [|a [|b l]]; simpl in *; try lia.
@@ -197,9 +198,38 @@ Section Plan.
       rewrite map_map in Y, Y'. simpl in Y, Y'.
       apply in_map_iff in Y. destruct Y as (_ & <- & _).
       apply in_map_iff in Y'. destruct Y' as (_ & E & _).
-      destruct (iv_tgt _ _ _ _ _ IF j i Hj T) as (Hi & _).
-      destruct (iv_tgt _ _ _ _ _ IF j' i' Hj' T') as (Hi' & _).
+      destruct (iv_tgt _ _ _ _ _ _ IF j i Hj T) as (Hi & _).
+      destruct (iv_tgt _ _ _ _ _ _ IF j' i' Hj' T') as (Hi' & _).
       assert (i' = i) by (apply (NoDup_map_nth f_name (s_src s) fdummy); auto).
-      subst i'. apply (iv_inj _ _ _ _ _ IF j j' i); auto.
+      subst i'. apply (iv_inj _ _ _ _ _ _ IF j j' i); auto.
+  Qed.
+
+  (* no statement writes a name that was in the write set before the passes *)
+  Theorem to_stmts_fresh s spaths need :
+    Inv e tm ic fns W0s W0d s ->
+    forall st, In st (to_stmts spaths need s) -> s_has W0d (r_name (st_dst st)) = false.
+  Proof.
+    intros (IT & _) st H. unfold to_stmts in H. apply in_flat_map in H. destruct H as (sf & Hsf & H).
+    destruct (In_nth _ _ fdummy Hsf) as (i & Hi & Ei).
+    destruct (f_target sf) as [j|] eqn:T; [|contradiction].
+    apply in_map_iff in H. destruct H as (h & <- & Hh). simpl. subst sf.
+    destruct (iv_tgt _ _ _ _ _ _ IT i j Hi T) as (Hj & _).
+    apply (iv_fresh _ _ _ _ _ _ IT j Hj). unfold rd, dst_at in *.
+    rewrite <- (strategies_length true (nth j (s_dst s) fdummy) (nth i (s_src s) fdummy)).
+    destruct (strategies true (nth j (s_dst s) fdummy) (nth i (s_src s) fdummy)); [contradiction | simpl; lia].
+  Qed.
+
+  Theorem from_stmts_fresh s dpaths need :
+    Inv e tm ic fns W0s W0d s ->
+    forall st, In st (from_stmts dpaths need s) -> s_has W0s (r_name (st_dst st)) = false.
+  Proof.
+    intros (_ & IF) st H. unfold from_stmts in H. apply in_flat_map in H. destruct H as (df & Hdf & H).
+    destruct (In_nth _ _ fdummy Hdf) as (j & Hj & Ej).
+    destruct (f_target df) as [i|] eqn:T; [|contradiction].
+    apply in_map_iff in H. destruct H as (h & <- & Hh). simpl. subst df.
+    destruct (iv_tgt _ _ _ _ _ _ IF j i Hj T) as (Hi & _).
+    apply (iv_fresh _ _ _ _ _ _ IF i Hi). unfold rd, src_at in *.
+    rewrite <- (strategies_length false (nth i (s_src s) fdummy) (nth j (s_dst s) fdummy)).
+    destruct (strategies false (nth i (s_src s) fdummy) (nth j (s_dst s) fdummy)); [contradiction | simpl; lia].
   Qed.
 End Plan.
